@@ -56,6 +56,50 @@ def ifaceKeyOutcome (t : Ty) : HashOutcome := if typComparable t then .key else 
     panics iff the dynamic type put into (one of) them is unhashable; `τ` itself is comparable (checked by the compiler) -/
 def nestedKeyOutcome (dyn : Ty) : HashOutcome := ifaceKeyOutcome dyn
 
+/-! ### order of the steps of a read-like map operation -/
+
+/-- state of the map operand -/
+inductive MapState
+  | nil        -- JS `false`
+  | empty      -- `new Map()` without entries
+  | populated
+  deriving DecidableEq, Repr
+
+/-- `m[k]`, `v, ok := m[k]`, `delete(m, k)` -/
+inductive ReadOp
+  | index
+  | commaOk
+  | delete
+  deriving DecidableEq, Repr
+
+/-- what the operation does after the key exists -/
+inductive ReadResult
+  | miss        -- zero value / ok = false / no-op (nil and empty maps)
+  | looked      -- the `Map` was consulted
+  deriving DecidableEq, Repr
+
+/-- the argument expression `K.keyFor(k)` of the emitted call; `none` = it threw `hash of unhashable type` -/
+def hashStep (dyn : Ty) : Option Unit := if typComparable dyn then some () else none
+
+/-- `$mapIndex(m, key)` / `$mapDelete(m, key)` (prelude.js:109-116): `typeof m.get === "function" ? m.get(key) : undefined` -/
+def helperStep : MapState → ReadResult
+  | .nil => .miss
+  | .empty => .looked
+  | .populated => .looked
+
+/-- emitted `$mapIndex(m, K.keyFor(k))`, `$mapDelete(m, K.keyFor(k))` (expressions.go:508-528,1066-1075): JS evaluates the
+    arguments first, so the key is hashed BEFORE the helper tests whether `m` is a map — as Go's runtime does
+    (`mapaccess`/`mapdelete` call `mapKeyError` also when the map is nil or empty). `none` = panic. -/
+def readOp (dyn : Ty) (m : MapState) (_op : ReadOp) : Option ReadResult :=
+  (hashStep dyn).bind fun _ => some (helperStep m)
+
+/-- NOT the code: the rejected variant that passes `K.keyFor` and the raw key to the helper, which hashes only if `m`
+    is a map -/
+def seededReadOp (dyn : Ty) (m : MapState) (_op : ReadOp) : Option ReadResult :=
+  match m with
+  | .nil => some .miss
+  | m => (hashStep dyn).bind fun _ => some (helperStep m)
+
 mutual
 /-- NOT the code: the rejected variant whose comparability decision skips blank fields -/
 def seededComparable : Ty → Bool
